@@ -56,5 +56,7 @@ def oracle : List Sexp → Sexp
     | .list [.atom "ok", .list (.atom "vars" :: vs), .list (.atom "exprs" :: bs), .list (.atom "domain" :: d')] =>
       BoundsOracle.check true Gen.boundsMaxSteps tol d cs [] impl vs bs d'
     | _ => app "err" [.atom "bad-request"]
+  | [.atom "check-aux", tol, .list (.atom "domain" :: d), .list (.atom "constraints" :: cs), lm] =>
+    BoundsOracle.checkAux tol d cs lm
   | _ => app "err" [.atom "bad-request"]
 end Rooc.Drv.C07
